@@ -6,4 +6,5 @@ MCProg == (1 :> <<[api |-> "set", key |-> "k1", val |-> "a", chunks |-> 1]>>) @@
           (2 :> <<[api |-> "put", key |-> "k2", val |-> "b", chunks |-> 1], [api |-> "touch", key |-> "k1", val |-> "", chunks |-> 0]>>)
 MCPre == {}
 NoDebris == {}
+NoKeyShards == <<>>
 ====
